@@ -83,8 +83,9 @@ CHECKS.update({
              "in-memory agreement only (plus SQLite reload); handlers recurse through the event system and are outside the pyvc subset", "DESIGN.md §5 C37"),
     "_C48_bounded_only": B("postconditions of InstanceState._modified_event / _commit_all (strong reference held while modified, released after commit) and database == model after dropping every reference + gc.collect() + commit, over all histories <= 4 (quick) / 5 (thorough) of 14 operations on SQLite memory. Bounded exploration.",
              "CPython refcount/GC semantics assumed", "DESIGN.md §5 C48"),
-    "C49": B("for every mutating method/operator of MutableList/MutableDict/MutableSet obtained by reflection from list/dict/set (an un-overridden one cannot be missed): contents changed => changed() was called, contents equal the builtin's, parent flagged and stored value updated on SQLite; argument catalogue over containers <= 3. Bounded; the domain of method names is covered completely.",
-             "that a flagged parent survives every flush/pickle/merge path is only sampled", "DESIGN.md §5 C49"),
+    "C49": dict(level="proof", technique=PROOF_TECH, design="DESIGN.md §5 C49, §11.6",
+                text="every in-place mutator of MutableDict (__setitem__, __delitem__, pop, popitem, setdefault, clear), MutableList (append, extend, +=, insert, remove, pop, clear, reverse, int-index __setitem__/__delitem__) and MutableSet (add, discard, remove, clear, the four *_update methods and |= &= ^= -=) is proved: the builtin's effect on the contents, and a change event (ghost counter of changed() calls) whenever the contents may have changed -- also when pop() returns a value equal to the default. Bounded complement: for every mutating method/operator obtained by reflection from list/dict/set: contents changed => changed() was called, contents equal the builtin's, parent flagged and stored value updated on SQLite.",
+                note="Mutable.changed() assumed (ghost counter); update(**kw), sort(**kw), __imul__, MutableDict.__ior__, slice forms, coerce, pickling and MutableComposite bounded only; that a flagged parent survives every flush/pickle/merge path is only sampled"),
     "C55": B("the pure-Python and compiled builds of the _*_cy modules are each checked against the same contracts (OrderedSet, IdentitySet, immutabledict, processors, _distill_params, BaseRow, result, anon_map) in two fresh processes and every case compared across builds; a stale .so is reported as not evaluated. Bounded exploration.",
              "Cython is not installed: the .so cannot be rebuilt from an edited source; freshness decided from the source lines embedded in the generated .c", "DESIGN.md §5 C55"),
     "C11": B("postcondition of CursorResultMetaData key-map construction evaluated on real rows: lookup by column object / label / string returns the value at that expression's position or raises the ambiguity error, never another column's value; 15-expression pool x 9 statement shapes x 3 label styles x label_length, SQLite and a stub cursor for 5 dialects, second execution through the compiled cache. Bounded exploration.",
